@@ -19,9 +19,27 @@ AS_MAPPER = [
     'termination of every mapper loop is proved (decreases clauses); the universal client is ghost-instrumented code that is never executed',
 ]
 
+TB_LOOP = TB_COMMON + [
+    'the loop is verified against the CONTRACT of the Driver trait (ghost state failed/sends/reads_live/kb_pending/tab_pending/tablet/just_switched/interrupts); that RealDriver (mio readiness, EAGAIN -> Busy, ENODEV -> End, nix read/write) meets this contract is assumed, not proved',
+    'E4: only WorkingRepeat, Device, PollResult, trait Driver, Next and do_remapping_loop_one_device of remapping_loop.rs are part of the verified text; the thread spawning / device discovery around them is not',
+    'Instant / Duration are modelled as mathematical integers of nanoseconds through axioms on vstd AddSpec / SubSpec / PartialOrdSpec (Instant + Duration is allowed only for durations of at most i32::MAX ms; Instant - Instant saturates at zero)',
+    'Mapper::step / release_all / for_layout / is_held_on_output are used through their contracts, which the mapper unit proves',
+]
+AS_LOOP = [
+    'environment: fewer than 50 Interrupted poll results between two device events (beyond that `1000 * (1 << restart_count)` overflows; an arithmetic obligation outside every listed property)',
+    'environment: the clock is monotonic (needed only to read "the wait is next_wakeup - now" as "at most delay_ms after the firing")',
+    'Mapper::step is a deterministic function of the mapper state and the event (safe Rust, no interior mutability): "the mapper\'s outputs for that sequence" are the values returned by the one mapper that is fed exactly the delivered events',
+    'the layout satisfies layout_ok (C14 shows that the loader only accepts such layouts)',
+    'the function is intentionally non-terminating (exec_allows_no_decreases_clause on do_remapping_loop_one_device only)',
+]
+
 PROPS = {
     'C19': dict(units=['mapper'], level='proof', trusted_base=TB_MAPPER, assumptions=AS_MAPPER, witness='mapper'),
     'C01': dict(units=['mapper'], level='proof', trusted_base=TB_MAPPER, assumptions=AS_MAPPER, witness='mapper', rests_on=['C19']),
     'C09': dict(units=['mapper'], level='proof', trusted_base=TB_MAPPER, assumptions=AS_MAPPER, witness='mapper'),
+    'C10': dict(units=['loop'], level='proof', trusted_base=TB_LOOP, assumptions=AS_LOOP, witness=None),
+    'C11': dict(units=['loop'], level='proof', trusted_base=TB_LOOP, assumptions=AS_LOOP, witness=None, rests_on=['C09']),
+    'C12': dict(units=['loop'], level='proof', trusted_base=TB_LOOP, assumptions=AS_LOOP, witness=None),
+    'C20': dict(units=['loop'], level='proof', trusted_base=TB_LOOP, assumptions=AS_LOOP, witness=None),
     'C07': dict(units=['mapper'], level='proof', trusted_base=TB_MAPPER, assumptions=AS_MAPPER, witness='mapper', rests_on=['C19']),
 }
